@@ -4,7 +4,9 @@ import Jasm.Model.Pipeline
 # C05 Capture groups bind consistently across a pattern
 
 Proved for the *capture spine*: rules whose top-level items are un-repeated instruction items (operand
-lists of literal names, operand-capture definitions and references) and instruction captures
+lists of literal names, operand-capture definitions and references), instruction captures, and -
+between them - arbitrary capture-free patterns of the literal fragment (repeated items, `$and` /
+`$or` / `$not` / `$and_any_order` groups, with `times`), which leave the bindings untouched
 (`spineItem`).  Definitions therefore lie on the executed-exactly-once spine, as the property's
 quantifier demands; references inside `$or` / `$not` / `$and_any_order` / repeated groups are covered
 by the correspondence check only.  Register-family captures violate the property on the pinned code
@@ -145,5 +147,11 @@ theorem C05_extension_not_matched :
 example : ([Pat.capInstDef "&i".toList, .mnem "mov".toList [.capOpDef "&a".toList, .capOpDef "&b".toList] Times.one,
     .capInstRef "&i".toList, .mnem "add".toList [.capOpRef "&b".toList, .operand "rax".toList false, .capOpRef "&a".toList] Times.one]).all
     (spineItem ["&i".toList]) = true := by decide
+
+/-- ... and one with a repeated capture-free item and a capture-free group before and between the definitions
+(the repetition wrapper and the groups must not disturb the numbering of the capture groups) -/
+example : ([Pat.mnem "nop".toList [] ⟨2, 2⟩, .mnem "push".toList [.capOpDef "&a".toList] Times.one,
+    .or [.mnem "mov".toList [] Times.one, .mnem "lea".toList [] ⟨1, 3⟩] ⟨0, 2⟩,
+    .mnem "pop".toList [.capOpRef "&a".toList] Times.one]).all (spineItem []) = true := by decide
 
 end Jasm.C05
